@@ -135,8 +135,12 @@ func main() {
 	src := flag.String("src", "_overlay", "directory with verifsched/ and verifshim/ sources")
 	goPoints := flag.Bool("gopoints", false, "insert a scheduling point at the start of every go func(){...} body")
 	pkgs := flag.String("pkgs", "traversal,bep44,.", "comma-separated package directories (relative to repo) to rewrite")
+	atomics := flag.Bool("atomics", false, "also rewrite sync/atomic to the scheduler shim (every atomic operation becomes a scheduling point)")
 	racePts := flag.String("racepoints", "", "comma-separated <file relative to repo>:<line>: insert a scheduling point before the statement covering that line (accesses a race detector run reported as unsynchronised)")
 	flag.Parse()
+	if *atomics {
+		rewrites["sync/atomic"] = mod + "/internal/verifshim/atomic"
+	}
 	// file (absolute) -> lines
 	raceLines := map[string][]int{}
 	pkgList := strings.Split(*pkgs, ",")
@@ -178,6 +182,7 @@ func main() {
 		"verifsched":                  "verifsched",
 		"internal/verifshim/sync":     "verifshim/sync",
 		"internal/verifshim/chansync": "verifshim/chansync",
+		"internal/verifshim/atomic":   "verifshim/atomic",
 	} {
 		ents, err := os.ReadDir(filepath.Join(absSrc, dir))
 		must(err)
